@@ -161,7 +161,7 @@ CLAIMS['C20'] = {
              "enum code into the same state, so everything downstream is identical. On every run accepted worlds are rewritten by every "
              "applicable rewrite (guided by the implementation's own output for the original) and the implementation's output files "
              "must be byte-identical; model and implementation are compared on both."),
-    'note': COMMON_NOTE + "END TO END (Props/C20E2E.lean): rewrite_congruence(_run/_on/_accepted) – replacing one definition by one that builds to the same thing leaves Case.run, O2 and O3 unchanged (simulation over the whole run); instantiated for whole cases: implicit_enum_value_e2e and natural_index_e2e (unconditional), natural_size_e2e (side condition: the type resolves to size N in the accepted run), explicit_address_e2e (side condition in every visited state), reorder_definitions_e2e (any permutation of a module's definitions). explicit_address_final_state_refuted: with the side condition only in the FINAL state the statement is false (a generated vftable struct that shadows a by-name import changes a layout mid-run) – replayed on the implementation and recorded as open finding C09/order-dependent/generated-vftable-shadows-import. Number spelling is C18.",
+    'note': COMMON_NOTE + "END TO END (Props/C20E2E.lean): rewrite_congruence(_run/_on/_accepted) – replacing one definition by one that builds to the same thing leaves Case.run, O2 and O3 unchanged (simulation over the whole run); instantiated for whole cases: implicit_enum_value_e2e and natural_index_e2e (unconditional), natural_size_e2e (side condition: the type resolves to size N in the accepted run), explicit_address_e2e (side condition in every visited state), reorder_definitions_e2e (any permutation of a module's definitions), gap_to_address_e2e / address_to_gap_e2e (Props/C20Gap.lean: an unnamed `unknown<N>` gap of any visibility and documentation against an explicit address on the following field, side condition in every visited state). explicit_address_final_state_refuted: with the side condition only in the FINAL state the statement is false (a generated vftable struct that shadows a by-name import changes a layout mid-run) – replayed on the implementation and recorded as open finding C09/order-dependent/generated-vftable-shadows-import. Number spelling is C18.",
     'technique': 'Lean 4 proof (one lemma per rewrite; sorted-permutation uniqueness) + differential correspondence + byte-identity metamorphic oracle',
 }
 CLAIMS['C09'] = {
